@@ -132,7 +132,7 @@ def _cfg1d(md, nmax, solve, tier):
     explicit = st.builds(lambda i, c: (i, c), st.sampled_from(ex), gen.f(0.05, 1.5))
     implicit = st.builds(lambda i, c: (i, c), st.sampled_from(im), gen.logf(-2, 2) if lin else gen.f(0.05, 2.0))
     base = st.builds(lambda me, num, s, fl, kind, i, o: dict(model=md, mesh=me, num=num, ustate=s, flux=fl, kind=kind, inlet=i, outlet=o),
-                     gen.mesh_any(1 if md["name"] != "nozzle" else 2, nmax), gen.num_any(), _state1d(md), st.sampled_from(cases.flux_names(fmd)), st.sampled_from(_kinds(md)),
+                     (gen.mesh_any(1 if md["name"] != "nozzle" else 2, nmax) if solve else gen.mesh_any_or_big(1 if md["name"] != "nozzle" else 2, nmax)), gen.num_any(), _state1d(md), st.sampled_from(cases.flux_names(fmd)), st.sampled_from(_kinds(md)),
                      st.sampled_from(INLETS), st.sampled_from(OUTLETS))
     if not solve:
         return base
